@@ -79,24 +79,51 @@ theorem ARest.noKC {e : Ev} (h : ARest e) : NoKC e := by
 theorem NoKC.afterSync (v : Variant) (cfg : Cfg) : Sat (TR (AllEv NoKC)) (afterSync v cfg) :=
   afterSync_sat (AllEv.tlaw NoKC) v cfg NoKC.newOrder fun _ he => AllEv.single he.noKC
 
-/-- The roll-over step: its key-change request (if the past key is known and the script has an
-answer) is `kid`-authenticated and signed by the recorded key; whatever follows (account save, or
-the re-registration after `accountDoesNotExist`) contains no other key change. -/
-theorem updateKey_kcBy (w : World) : Tr (KCBy w.acc.recKey) updateKey w := by
-  obtain ⟨es, he, hs⟩ := updateKey_shape w
+/-- The roll-over step: its key-change request (if one is sent) is `kid`-authenticated and signed
+by the recorded key; whatever precedes (the check of the account, since 1fb1c1a) or follows (account
+save, the re-registration after `accountDoesNotExist`, the check signed by the current key) contains
+no other key change. -/
+theorem updateKey_kcBy (v : Variant) (w : World) : Tr (KCBy w.acc.recKey) (updateKey v) w := by
+  obtain ⟨es, he, hs, _⟩ := updateKey_shape v w
   refine ⟨es, he, ?_⟩
-  rcases hs with ⟨rfl, _⟩ | ⟨r, rest, rfl, h⟩
-  · simp
-  · intro e hm
-    rcases List.mem_cons.mp hm with rfl | hm
-    · exact ⟨rfl, rfl⟩
-    · rcases h with ⟨_, hreg⟩ | ⟨_, hsv, _⟩
-      · rcases hreg with ⟨rfl, _⟩ | ⟨r', rest', rfl, hsv, _⟩
-        · cases hm
+  have hu : ∀ {es t}, UpdShape .keyChange w.acc.recKey w.acc.curKey es t →
+      ∀ e ∈ es, KCBy w.acc.recKey e := by
+    intro es t hs
+    rcases hs with ⟨rfl, _⟩ | ⟨r, rest, rfl, h⟩
+    · simp
+    · intro e hm
+      rcases List.mem_cons.mp hm with rfl | hm
+      · exact ⟨rfl, rfl⟩
+      · rcases h with ⟨_, hreg⟩ | ⟨_, hsv, _⟩ | ⟨_, _, q, rest', rfl, hsv, _⟩
+        · rcases hreg with ⟨rfl, _⟩ | ⟨r', rest', rfl, hsv, _⟩
+          · cases hm
+          · rcases List.mem_cons.mp hm with rfl | hm
+            · trivial
+            · exact (hsv.1 e hm).kcBy
+        · exact (hsv.1 e hm).kcBy
         · rcases List.mem_cons.mp hm with rfl | hm
           · trivial
           · exact (hsv.1 e hm).kcBy
+  rcases hs with hs | ⟨p, rest, rfl, ⟨_, ⟨rfl, _⟩ | ⟨q, rest', rfl, hsv, _⟩⟩ | ⟨_, hs, _⟩ | ⟨rfl, _⟩⟩
+  · exact hu hs
+  · intro e hm
+    rcases List.mem_cons.mp hm with rfl | hm
+    · trivial
+    · cases hm
+  · intro e hm
+    rcases List.mem_cons.mp hm with rfl | hm
+    · trivial
+    · rcases List.mem_cons.mp hm with rfl | hm
+      · trivial
       · exact (hsv.1 e hm).kcBy
+  · intro e hm
+    rcases List.mem_cons.mp hm with rfl | hm
+    · trivial
+    · exact hu hs e hm
+  · intro e hm
+    rcases List.mem_cons.mp hm with rfl | hm
+    · trivial
+    · cases hm
 
 theorem synchronize_kcBy (w : World) : Tr (KCBy w.acc.recKey) (synchronize .current) w := by
   have hreg : ∀ w1, Tr (KCBy w.acc.recKey) register w1 :=
@@ -118,7 +145,7 @@ theorem synchronize_kcBy (w : World) : Tr (KCBy w.acc.recKey) (synchronize .curr
       rw [sync_eq_keyFirst _ w hu hb rfl]
       refine Tr.bind ?_ fun _ w1 _ => ?_
       · split
-        · exact updateKey_kcBy w
+        · exact updateKey_kcBy _ w
         · exact Tr.pure _ w
       · split
         · exact hcon w1
